@@ -31,9 +31,9 @@ def cubes_listing(tier):
 def cubes_forms(tier):
     forms = ("json", "db", "trie")
     if tier == "quick":
-        return [{"form": f, "nkeys": 1, "koff": k} for f in forms for k in (1, 3)]
+        return [{"form": f, "nkeys": 1, "koff": k} for f in forms for k in (1, 3)] + [{"form": "trie", "nkeys": 1, "koff": k, "mutate": True} for k in (0, 1)]
     return [{"form": f, "nkeys": 1, "koff": k} for f in forms for k in range(4)] + \
-           [{"form": f, "nkeys": 2, "koff": k} for f in forms for k in (0, 1, 2)]
+           [{"form": f, "nkeys": 2, "koff": k} for f in forms for k in (0, 1, 2)] + [{"form": "trie", "nkeys": 1, "koff": k, "mutate": True} for k in range(4)]
 
 
 IF_SMOKE = {"pr0": True, "pr1": True, "pr2": True, "pr3": True, "m0": 1, "m1": 2, "m2": 1, "m3": 0, "s0": 1, "s1": 0, "s2": 2, "s3": 0,
